@@ -204,6 +204,36 @@ theorem c13_genesis_inv {n : Network} (hwf : n.WF) :
     d1, by simp, fun _ => by omega, fun _ => ⟨by omega, by omega, rfl, by decide⟩⟩
 
 
+/-! ## How fast the margin can be consumed (v2 eras) -/
+
+/-- Under v2 rules one header raises the difficulty by at most `max(D/250, 1)`, adds exactly
+    the old difficulty to the cumulative work, and raises the decayed work sum by at most the
+    old difficulty. So from difficulty `D₀` it takes more than `250·ln(2^200/D₀)` blocks to
+    leave the `Margin` — every one of them mined at that difficulty. -/
+theorem c13_margin_growth_v2 {n : Network} {s s' : PowState} {h : Header} {tt : Int}
+    (hinv : PowInv n s) (hp : h.parentID ≠ 0) (hv2 : n.v2AllowHeight ≤ s.childHeight)
+    (hok : applyHeader n s h tt = .ok s') :
+    s'.difficulty ≤ s.difficulty + max (s.difficulty / 250) 1 ∧
+    s'.totalWork = s.totalWork + s.difficulty ∧
+    s'.oakWork ≤ s.oakWork + s.difficulty := by
+  obtain ⟨-, -, hdp, hct, -, -, -, -, -, -, -, -, -, -⟩ := hinv
+  obtain ⟨tw, dp, d, ct, ow, ot, h1, h2, h3, hT, hD, hO, -, -, -, -, -⟩ := applyHeader_inv hp hok
+  obtain ⟨-, b2⟩ := updateTotalWork_inv hdp hct h1
+  obtain ⟨-, a2, a3⟩ := adjustDifficulty_inv h2
+  refine ⟨?_, by rw [hT]; exact (b2 hv2).1, ?_⟩
+  · rw [hD]
+    by_cases e2 : s.childHeight < n.v2FinalCutHeight
+    · have := (c13_clamp_v2 n s h.timestamp d (a2 hv2 e2).1).2
+      omega
+    · have := (c13_clamp_finalcut n s h.timestamp d (a3 hv2 (by omega)).1).2.1
+      omega
+  · rw [hO]
+    unfold updateOakWork at h3
+    rw [if_neg (by omega)] at h3
+    simp only [bind_eq_ok, wdiv64_eq_ok, wsub_eq_ok, wadd_eq_ok, invTarget_eq_ok, pure_eq_ok, Prod.mk.injEq] at h3
+    obtain ⟨q, ⟨-, rfl⟩, a, ⟨-, rfl⟩, w, ⟨-, rfl⟩, t, -, rfl, -⟩ := h3
+    omega
+
 /-! ## Whole chains, by induction -/
 
 /-- apply a list of (header, ancestor timestamp) pairs in order -/
